@@ -58,3 +58,17 @@ Theorem C02_client_finish_shape : skel_tunnelClientStream_finishStream =
   ["call done.CompareAndSwap"; "defer call cancel"; "call ch.removeStream"; "defer call receiver.close"; "call metaMu.Lock"; "defer call metaMu.Unlock"; "set trailers"; "set gotHeaders"; "close gotHeadersSignal"; "close doneSignal"].
 Proof. exact tunnelClientStream_finishStream_shape. Qed.
 Print Assumptions C02_client_finish_shape.
+
+(* ---- one RPC end to end (Rpc.v), every interleaving: headers are available no later than the first
+   response message, and at the latest with the terminal result ---- *)
+From GT Require Import Rpc RpcInv RpcProofs RpcSystem RpcEnd.
+Theorem C02_rpc_headers_no_later_than_first_message : forall strict ls s,
+  rrun strict r_init ls = Some s ->
+  (k_gotmsg (r_k s) = true -> k_hdrs (r_k s) = true) /\ (k_sig (r_k s) = true -> k_hdrs (r_k s) = true).
+Proof. exact rpc_headers_no_later_than_first_message. Qed.
+Print Assumptions C02_rpc_headers_no_later_than_first_message.
+(* what the client's receive loop is handed for the stream is always a prefix of a conforming server history *)
+Theorem C02_rpc_client_is_handed_conforming_frames : forall strict ls s,
+  rrun strict r_init ls = Some s -> exists d, h_s s = d ++ q_s s /\ gs_run d <> GsBad.
+Proof. exact rpc_client_is_handed_conforming_frames. Qed.
+Print Assumptions C02_rpc_client_is_handed_conforming_frames.
